@@ -288,6 +288,60 @@ func CheckC19(run *evid.Run) {
 		}
 	}
 	run.Count("same_digest_pairs", len(sd)*len(sd))
+	// the orderings are functions of the entries' CURRENT fields: entry objects that were compared before and
+	// were then given another hash or clock (SetHash / SetClock, or a Copy() that is re-hashed - the way the
+	// library itself creates entries) must compare exactly like freshly built entries with the same fields
+	{
+		hs := []cid.Cid{foreignCid("h-a"), foreignCid("h-b"), foreignCid("h-c"), foreignCid("h-d")}
+		cmps := []cmpFn{{"hash-tiebreak", sorting.SortByEntryHash}, {"last-write-wins", sorting.LastWriteWins}, {"first-write-wins", sorting.FirstWriteWins}}
+		fresh := func(h cid.Cid, id []byte, t int) *entry.Entry {
+			return &entry.Entry{Hash: h, Clock: entry.NewLamportClock(id, t), LogID: "x", Payload: []byte("reuse")}
+		}
+		for _, t := range []int{0, 5, 1 << 53} {
+			for _, id := range [][]byte{{0x01}, {0x02}} {
+				for ha := range hs {
+					for hb := range hs {
+						for hn := range hs {
+							for mode := 0; mode < 3; mode++ {
+								a, b := fresh(hs[ha], id, t), fresh(hs[hb], []byte{0x01}, t)
+								for _, c := range cmps { // first use: whatever the implementation remembers, it remembers now
+									_, _ = c.f(a, b)
+									_, _ = c.f(b, a)
+								}
+								var a2 iface.IPFSLogEntry = a
+								how := "SetHash on the compared object"
+								switch mode {
+								case 1:
+									a2 = a.Copy()
+									how = "Copy() of the compared object, then SetHash"
+								case 2:
+									how = "SetHash, then SetClock on the compared object"
+								}
+								a2.SetHash(hs[hn])
+								want := fresh(hs[hn], id, t)
+								if mode == 2 {
+									a2.SetClock(entry.NewLamportClock([]byte{0x03}, t+1))
+									want = fresh(hs[hn], []byte{0x03}, t+1)
+								}
+								for _, c := range cmps {
+									g1, _ := c.f(a2, b)
+									w1, _ := c.f(want, b)
+									g2, _ := c.f(b, a2)
+									w2, _ := c.f(b, want)
+									run.Count("comparisons_of_reused_entry_objects", 2)
+									if sgn(g1) != sgn(w1) || sgn(g2) != sgn(w2) {
+										run.Violate("C19/depends-on-object-history", det("ordering", c.name, "how", how), map[string]any{"a_before": desc(fresh(hs[ha], id, t)), "a_now": desc(want), "b": desc(b), "how": how},
+											"%s ordering of an entry object that was compared before and then changed (%s) gives %d/%d, a freshly built entry with the same fields gives %d/%d", c.name, how, g1, g2, w1, w2)
+									}
+								}
+							}
+						}
+					}
+				}
+			}
+		}
+		run.NonTrivial("pair/reused-objects")
+	}
 	for k := 0; k+4 <= len(sd); k += 4 {
 		var es []iface.IPFSLogEntry
 		for _, e := range sd[k : k+4] {
